@@ -300,11 +300,13 @@ Definition opp_out_eqb (a b : opp_out) : bool :=
   list_eqb kv_eqb (oo_inp a) (oo_inp b) && list_eqb kv_eqb (oo_mat a) (oo_mat b) &&
   zs_eqb (oo_buf a) (oo_buf b) && Bool.eqb (oo_lost a) (oo_lost b).
 
-(* delimiter readers: (delimiter, chunks) -> dispatched messages, died, carried-over buffer (when alive) *)
-Definition reader_run (i : Z * list bytes) : (list bytes * bool) * bytes :=
-  let '(d, chunks) := i in
+(* delimiter readers: (delimiter, ignored messages, chunks) -> messages handed on, died, carried-over buffer (when
+   alive).  PKONE drops the messages listed in ignored_messages ('PWD') after decoding them. *)
+Definition reader_run (i : (Z * list bytes) * list bytes) : (list bytes * bool) * bytes :=
+  let '((d, ign), chunks) := i in
   let '(o, dead) := reader_chunks d [] chunks in
-  (o, dead, if dead then [] else snd (delim_feed_chunks d [] chunks)).
+  (filter (fun m => negb (existsb (zs_eqb m) ign)) o, dead,
+   if dead then [] else snd (delim_feed_chunks d [] chunks)).
 
 Definition reader_out_eqb (a b : (list bytes * bool) * bytes) : bool :=
   zss_eqb (fst (fst a)) (fst (fst b)) && Bool.eqb (snd (fst a)) (snd (fst b)) && zs_eqb (snd a) (snd b).
